@@ -21,9 +21,12 @@ type c12Case struct {
 	MID    string `json:"mid"`
 	Header string `json:"header,omitempty"` // extra header "Key: value" ("<MBOX>" expands to the mailbox path)
 	Op     string `json:"op"`
+	// Seq, if set, is a sequence of handler operations; "H" stands for the hostile identifier MID,
+	// "V" for a valid one: Prepare, Answer:H|V, Answers:HV, Process:H|V, Deferred:H|V, GetOutbound
+	Seq []string `json:"seq,omitempty"`
 }
 
-var c12Tokens = []string{"a", "/", "..", ".", "\\", "\x00"}
+var c12Tokens = []string{"a", "/", "..", ".", "\\", "\x00", "../"}
 
 func c12MIDs() []string {
 	var out []string
@@ -86,6 +89,34 @@ func c12Run(c c12Case) (class, detail string, hostile bool) {
 	hostile = strings.ContainsAny(c.MID, "/\\\x00") || strings.Contains(c.MID, "..") || c.Header != ""
 	vfs.Begin(-1, 0, true)
 	pmsg, _ := core.Catch(func() {
+		for _, op := range c.Seq {
+			id := func(k byte) string {
+				if k == 'H' {
+					return c.MID
+				}
+				return "VALIDMID0001"
+			}
+			prop := func(k byte) fbb.Proposal { return *fbb.NewProposal(id(k), "t", fbb.Wl2kProposal, []byte("x")) }
+			name, arg, _ := strings.Cut(op, ":")
+			switch name {
+			case "Prepare":
+				h.Prepare()
+			case "Answer":
+				h.GetInboundAnswer(prop(arg[0]))
+			case "Answers":
+				if b, ok := any(h).(fbb.BatchedInboundHandler); ok {
+					b.GetInboundAnswers([]fbb.Proposal{prop(arg[0]), prop(arg[1])})
+				}
+			case "Process":
+				m := c11Msg("PLACEHOLDER", 0, false)
+				m.Header.Set("Mid", id(arg[0]))
+				h.ProcessInbound(m)
+			case "Deferred":
+				h.SetDeferred(id(arg[0]))
+			case "GetOutbound":
+				h.GetOutbound()
+			}
+		}
 		switch c.Op {
 		case "ProcessInbound":
 			h.ProcessInbound(msg)
@@ -118,7 +149,11 @@ func c12Run(c c12Case) (class, detail string, hostile bool) {
 		if c.Header != "" {
 			via = "header " + strings.SplitN(c.Header, ":", 2)[0]
 		}
-		return "escape|" + c.Op + "|" + kind + "|via " + via, d, hostile
+		op := c.Op
+		if len(c.Seq) > 0 {
+			op = "sequence"
+		}
+		return "escape|" + op + "|" + kind + "|via " + via, d, hostile
 	}
 	// also nothing escaped to the absolute locations some identifiers aim at
 	for _, p := range []string{"/tmp/c12-absolute-escape.b2f", "/tmp/c12-evil.b2f"} {
@@ -162,6 +197,22 @@ func C12(args []string) {
 			cases = append(cases, c12Case{MID: mid, Header: hd, Op: "ProcessInbound+Answer"})
 		}
 	}
+	// operation sequences: what one call records another may use (two identifiers, two steps)
+	seqOps := []string{"Prepare", "Answer:H", "Answer:V", "Answers:HV", "Process:H", "Process:V", "Deferred:H", "GetOutbound"}
+	var seqs [][]string
+	for _, a := range seqOps {
+		for _, b := range seqOps {
+			seqs = append(seqs, []string{a, b})
+			for _, c := range seqOps {
+				seqs = append(seqs, []string{a, b, c})
+			}
+		}
+	}
+	for _, mid := range []string{"../../a", "../../aa", "../../../a", "../../pwn", "..\\..\\a", "a/../../../a", "../../../../../../../../tmp/c12-absolute-escape", "../../outside/target", "../a\x00"} {
+		for _, sq := range seqs {
+			cases = append(cases, c12Case{MID: mid, Seq: sq})
+		}
+	}
 	r.Sharded(len(cases), func(i int) {
 		c := cases[i]
 		class, detail, hostile := c12Run(c)
@@ -171,7 +222,7 @@ func C12(args []string) {
 			r.Distinct(fmt.Sprint(i))
 		}
 		if class != "" {
-			r.Violation("C12|"+class, fmt.Sprintf("MID %q header %q: %s", c.MID, c.Header, detail), c)
+			r.Violation("C12|"+class, fmt.Sprintf("MID %q header %q %v: %s", c.MID, c.Header, c.Seq, detail), c)
 		}
 		if i%3001 == 0 {
 			r.Sample(c)
